@@ -281,6 +281,28 @@ theorem C10_timed_once (T : Topo) (s0 : State)
     · exact ih (fun o ho => hno o (List.mem_cons_of_mem _ ho)) e hl'
 
 
+/-- **A new connection starts with nothing.** `Op.lose c` is the end of the connection with peer
+    address `c`, whoever ended it (the peer, or the server through `HAPServerProtocol.close()` followed
+    by the `connection_lost` that asyncio delivers); later operations under `c` belong to a new
+    connection from the same address and port. Unless that new connection has itself prepared `p`, it
+    holds no live prepare for `p` — whatever its predecessor had prepared and however long that ttl
+    was — so by `C10_timed` its write carrying `p` is refused. -/
+theorem C10_timed_fresh_connection (T : Topo) (s0 : State)
+    (later earlier : List Op) (c : Conn) (p : Pid)
+    (hno : ∀ op ∈ later, ∀ ttl, op ≠ Op.prepare c (some ttl) (some p)) :
+    ¬ ∃ e, LivePrep true true T s0 (later ++ Op.lose c :: earlier) c p e := by
+  rintro ⟨e, hl⟩
+  induction later generalizing e with
+  | nil =>
+    rcases (livePrep_cons ..).1 hl with ⟨ttl, h, _⟩ | ⟨hnt, _⟩
+    · cases h
+    · exact hnt rfl
+  | cons op later ih =>
+    rw [List.cons_append] at hl
+    rcases (livePrep_cons ..).1 hl with ⟨ttl, h, _⟩ | ⟨_, hl'⟩
+    · exact hno op (List.mem_cons_self ..) ttl h
+    · exact ih (fun o ho => hno o (List.mem_cons_of_mem _ ho)) e hl'
+
 /-- **Only the connection's own prepare counts.** If the history contains no well-formed prepare of
     `p` sent by `c` itself (whatever other connections prepared, whatever `c` prepared under other
     ids), `c` holds no live prepare for `p`, so by `C10_timed` its write carrying `p` is refused. -/
@@ -373,6 +395,9 @@ example : (runRev true true demoT st0 [Op.advance 250, Op.prepare 0 (some 250) (
 example : (popPid (runRev true true demoT st0 [Op.advance 250, Op.prepare 0 (some 250) (some 7)]) 0 (some 7)).1 = false := by
   decide
 example : (popPid (runRev true true demoT st0 [Op.advance 375, Op.prepare 0 (some 250) (some 7)]) 0 (some 7)).1 = true := by
+  decide
+/-- a predecessor's prepare with an enormous ttl does not survive the end of its connection -/
+example : (popPid (runRev true true demoT st0 [Op.lose 0, Op.prepare 0 (some 400000000) (some 7)]) 0 (some 7)).1 = true := by
   decide
 /-- another connection's prepare does not count -/
 example : (popPid (runRev true true demoT st0 [Op.prepare 1 (some 250) (some 7)]) 0 (some 7)).1 = true := by decide
